@@ -92,6 +92,8 @@ func buildC14(tier string, seed int64) *Family {
 		}
 	}
 	for _, x := range []string{"//p:a", "//a", "//q:a/@p:a", "p:a/q:a", "//*[p:a]", "@p:a", "//@q:a", "p:a | q:a",
+		// descendant steps feeding descendant steps, with name tests
+		"descendant-or-self::p:a/descendant::q:a", "descendant::p:a//a", "descendant-or-self::p:a//p:a", "descendant::p:a/descendant-or-self::*",
 		// a prefixed name test followed by unprefixed ones
 		"p:a/a", "//p:a/a", "p:a/@a", "ancestor::p:a/child::a", "//p:a//b", "p:a/*", "p:a/q:a/a", "@p:a/../a",
 		// NCName:* — every element (attribute) of that prefix / namespace
